@@ -149,7 +149,7 @@ def forms_for(importer_pkg_depth):
 def position_cases(ctx, rng, per_file=1):
     """one project per chunk of importer files: each importer holds one statement at one position chain"""
     chains = [[p] for p in sc.POS_NAMES]
-    for _ in range(ctx.size(150, 600)):
+    for _ in range(ctx.size(150, 1500)):
         chains.append([rng.choice(sc.POS_NAMES) for _ in range(rng.randint(2, 3))])
     cases = []
     importers = [("proj/imp_{}.py", 1), ("proj/pkg/imp_{}.py", 2), ("proj/pkg/deep/imp_{}.py", 3), ("proj/pkg/deep/__init__.py", 3)]
@@ -339,7 +339,7 @@ def run(ctx: Ctx, aspect="C02"):
     s.finish()
     s = Stream(ctx, "random project trees x random imports x module paths")
     rng = ctx.rng("trees")
-    n = ctx.size(1000, 6000)
+    n = ctx.size(1000, 30000)
     done = 0
     while done < n and ctx.left() > 30 and not ctx.violations:
         cs = random_cases(ctx, rng, min(300, n - done))
@@ -356,10 +356,10 @@ def run(ctx: Ctx, aspect="C02"):
         s.finish()
     if aspect == "C04" and not ctx.violations:
         s = Stream(ctx, "rules about 'sub modules of X' evaluated on scanned architectures (sub modules = dotted extensions)")
-        scanned_rule_stream(ctx, s, ctx.size(400, 4000))
+        scanned_rule_stream(ctx, s, ctx.size(400, 12000))
         s.finish()
     if aspect == "C04" and not ctx.violations:
         s = Stream(ctx, "sub-scans: imports spelled relative to module_path's parent vs fully qualified (repeated directory names)")
-        parent_relative(ctx, s, ctx.size(500, 4000))
+        parent_relative(ctx, s, ctx.size(500, 12000))
         s.finish()
     return RULE
